@@ -1,5 +1,86 @@
 // harness commands owned by the check of property C15 (see tools/props/C15.py)
-#[allow(unused_variables)]
+//
+// replmods <opts> <item>...      item = <hex snippet> | RESET | FRESH | <hex name>=<hex src>
+//   One Vm, the snippets in order (as the REPL of yarel-cli does), with the host module loader serving the
+//   `name=src` items (which may appear anywhere on the line; the whole map is installed before the first
+//   snippet).  FRESH drops the Vm and creates a new one (the reference for "after a reset the interpreter is
+//   indistinguishable from a newly created one").  After every item: `SNIP i`, the O/R/M records, the modules
+//   the loader was asked for (`LOAD hex`), and the H5 record `CS …`.  A panic inside a snippet is caught per
+//   snippet (`R panic hex`) and ends the history: the records of the earlier snippets survive.
+use crate::{emit_carried, emit_result, hex, new_vm, parse_opts, setup, unhex_str, LOADS, MODULES, OUTPUT};
+use yarel::memory::verif as gcv;
+use yarel::vm;
+
+fn cmd_replmods(args: &[&str], out: &mut Vec<String>) {
+    let o = parse_opts(args[0]);
+    MODULES.with(|m| {
+        let mut m = m.borrow_mut();
+        m.clear();
+        for a in &args[1..] {
+            if let Some(p) = a.find('=') {
+                m.insert(unhex_str(&a[..p]), unhex_str(&a[p + 1..]));
+            }
+        }
+    });
+    LOADS.with(|l| l.borrow_mut().clear());
+    gcv::set_deref_check(Some(crate::deref_check));
+    let mut vm = new_vm();
+    setup(&o);
+    let mut i = 0usize;
+    for a in args[1..].iter() {
+        if a.contains('=') {
+            continue;
+        }
+        out.push(format!("SNIP {}", i));
+        i += 1;
+        if *a == "RESET" {
+            vm.reset();
+            out.push("R reset".to_owned());
+            emit_carried(out, &vm);
+            continue;
+        }
+        if *a == "FRESH" {
+            vm = new_vm();
+            out.push("R fresh".to_owned());
+            emit_carried(out, &vm);
+            continue;
+        }
+        let src = unhex_str(a);
+        let r = std::panic::catch_unwind(std::panic::AssertUnwindSafe(|| vm::interpret(&mut vm, src, None)));
+        match r {
+            Ok(r) => {
+                emit_result(out, &r);
+                for l in LOADS.with(|l| std::mem::take(&mut *l.borrow_mut())) {
+                    out.push(format!("LOAD {}", hex(l.as_bytes())));
+                }
+                emit_carried(out, &vm);
+            }
+            Err(p) => {
+                let msg = if let Some(s) = p.downcast_ref::<String>() {
+                    s.clone()
+                } else if let Some(s) = p.downcast_ref::<&str>() {
+                    (*s).to_owned()
+                } else {
+                    "panic".to_owned()
+                };
+                for line in OUTPUT.with(|o| std::mem::take(&mut *o.borrow_mut())) {
+                    out.push(format!("O {}", hex(line.as_bytes())));
+                }
+                out.push(format!("R panic {}", hex(msg.as_bytes())));
+                // the Vm may be in any state: do not touch it again (leak it, its Drop could panic too)
+                std::mem::forget(vm);
+                return;
+            }
+        }
+    }
+}
+
 pub fn dispatch(cmd: &str, args: &[&str], out: &mut Vec<String>) -> bool {
-    false
+    match cmd {
+        "replmods" => {
+            cmd_replmods(args, out);
+            true
+        }
+        _ => false,
+    }
 }
